@@ -12,7 +12,7 @@ package discov
 
 //@ spec cInv(c *container) bool = c.values != nil && c.mapping != nil && c.dirty != nil &&
 //@      forall(k.(string), v.(string), iff(inDom(c.mapping, k) && c.mapping[k] == v, inDom(c.values, v) && has(c.values[v], k))) &&
-//@      forall(v.(string), implies(inDom(c.values, v), len(c.values[v]) > 0 && has(c.values[v], c.values[v][0])))
+//@      forall(v.(string), implies(inDom(c.values, v), len(c.values[v]) > 0))
 //@ spec snapOK(c *container) bool = implies(!abVal[c.dirty], forall(v.(string), boxedset(avVal[addr(c.snapshot)])[v] == inDom(c.values, v)))
 
 //@ lockinv (c *container) lock: cInv(c) && snapOK(c)
@@ -29,7 +29,6 @@ package discov
 //@   allocates
 //@   loop 0: modifies nothing
 //@   loop 0: invariant len(remain) <= idx && forall(x.(string), has(remain, x) == (x != key && visited[x]))
-//@   loop 0: invariant implies(len(remain) > 0, has(remain, remain[0]))
 //@   loop 0: invariant implies(len(remain) == 0, forall(x.(string), !has(remain, x)))
 
 //@ func (c *container) removeKey
@@ -40,3 +39,20 @@ package discov
 //@   ensures  abVal[c.dirty]
 //@   modifies mapof(c.mapping), mapof(c.values), abVal[c.dirty]
 //@   allocates
+
+// addKv: reg' = reg[key := value]; an exclusive container also drops every other key of that value.
+//@ func (c *container) addKv
+//@   property C13
+//@   flag old_at_lock
+//@   ensures  inDom(c.mapping, key) && c.mapping[key] == value
+//@   ensures  implies(!c.exclusive, forall(k.(string), implies(k != key, inDom(c.mapping, k) == old(inDom(c.mapping, k)) && implies(inDom(c.mapping, k), c.mapping[k] == old(c.mapping[k])))))
+//@   ensures  implies(c.exclusive, forall(k.(string), implies(k != key, inDom(c.mapping, k) == (old(inDom(c.mapping, k)) && old(c.mapping[k]) != value) && implies(inDom(c.mapping, k), c.mapping[k] == old(c.mapping[k])))))
+//@   ensures  abVal[c.dirty]
+//@   modifies mapof(c.mapping), mapof(c.values), abVal[c.dirty]
+//@   allocates
+//@   ghost at after append#0: D1 = domof(c.mapping)
+//@   ghost at after append#0: V1 = valof(c.mapping)
+//@   loop 0: modifies mapof(c.mapping), mapof(c.values)
+//@   loop 0: invariant cInv(c) && abVal[c.dirty]
+//@   loop 0: invariant forall(k.(string), inDom(c.mapping, k) == (D1[k] && !visited[k]))
+//@   loop 0: invariant forall(k.(string), implies(inDom(c.mapping, k), c.mapping[k] == V1[k]))
